@@ -1,45 +1,1069 @@
+// obs-posting: the real posting-mode path of the working tree, observed as Coq cases for Posting/Model.v and
+// judged by the oracle of C09 (exactly the requested postings or whole rejection) and of the pure half of C10.
+//
+//	script   ledger.TxToScriptData -> text -> real ANTLR parser -> AST (= model tx_to_script), vars through the real
+//	         SetVarsFromJSON, then the real compiler + machine on a generated balance table (= model sem, = predict)
+//	validate ledger.Postings.Validate on raw strings (= model first_invalid)
+//	string   ledger.ValidateAddress / AssetIsValid on one string (= valid_address / valid_asset), short strings exhaustively
+//	reverse  Postings.Reverse / TransactionData.Reverse (= reverse_postings)
+//	handler  the real v1 / v2 POST /{ledger}/transactions and the bulk CREATE_TRANSACTION element with a recording
+//	         backend: what RunScript the backend receives (= handler, TxToScriptData of the request) or 400 before it
 package main
 
 import (
 	"bytes"
+	"context"
+	"encoding/hex"
+	"encoding/json"
+	"errors"
 	"fmt"
+	"math/big"
 	"net/http"
 	"net/http/httptest"
+	"reflect"
+	"regexp"
+	"sort"
+	"os"
+	"strings"
+	"syscall"
+	"time"
+	"unicode/utf8"
 
 	ledger "github.com/formancehq/ledger/internal"
 	v1 "github.com/formancehq/ledger/internal/api/v1"
 	v2 "github.com/formancehq/ledger/internal/api/v2"
+	"github.com/formancehq/ledger/internal/machine"
+	"github.com/formancehq/ledger/internal/machine/script/compiler"
+	"github.com/formancehq/ledger/internal/machine/vm"
+	"github.com/formancehq/ledger/internal/machine/vm/program"
 	"github.com/formancehq/ledger/internal/opentelemetry/metrics"
 	"github.com/formancehq/ledger/verifx/fakeapi"
+	"github.com/formancehq/ledger/verifx/nsx"
+	"github.com/formancehq/ledger/verifx/vx"
 	"github.com/formancehq/stack/libs/go-libs/auth"
 	"github.com/formancehq/stack/libs/go-libs/health"
+	"github.com/formancehq/stack/libs/go-libs/metadata"
 )
 
-func main() {
-	for _, body := range []string{
-		`{"postings":[{"source":"world","destination":"a","asset":"USD"}]}`,
-		`{"postings":[{"source":"world","destination":"a","asset":"USD","amount":null}]}`,
-		`{"postings":[{"source":"world","destination":"a","asset":"USD","amount":-3}]}`,
-		`{"postings":[{"source":"world","destination":"a","asset":"USD","amount":3}], "metadata": {"k":"v"}, "reference":"r1", "timestamp":"2023-01-02T03:04:05Z"}`,
-	} {
-		l := &fakeapi.Ledger{}
-		r1 := v1.NewRouter(&fakeapi.Backend{L: l}, &health.HealthController{}, metrics.NewNoOpRegistry(), auth.NewNoAuth())
-		req := httptest.NewRequest(http.MethodPost, "/l0/transactions", bytes.NewBufferString(body))
-		rec := httptest.NewRecorder()
-		func() {
-			defer func() { fmt.Println("recover:", recover()) }()
-			r1.ServeHTTP(rec, req)
-		}()
-		fmt.Println("v1", rec.Code, len(l.Writes), rec.Body.String())
-		l2 := &fakeapi.Ledger{}
-		r2 := v2.NewRouter(&fakeapi.Backend{L: l2}, &health.HealthController{}, metrics.NewNoOpRegistry(), auth.NewNoAuth())
-		req = httptest.NewRequest(http.MethodPost, "/l0/transactions", bytes.NewBufferString(body))
-		rec = httptest.NewRecorder()
-		r2.ServeHTTP(rec, req)
-		fmt.Println("v2", rec.Code, len(l2.Writes), rec.Body.String())
-		if len(l2.Writes) > 0 {
-			fmt.Printf("%q %v %v %v %v\n", l2.Writes[0].Script.Plain, l2.Writes[0].Script.Vars, l2.Writes[0].Script.Metadata, l2.Writes[0].Script.Reference, l2.Writes[0].Script.Timestamp)
+// ---- inputs ------------------------------------------------------------------------------------------------
+
+// bstr is a byte string that survives JSON: valid UTF-8 is a JSON string, anything else {"hex": "..."}.
+type bstr string
+
+func (b bstr) MarshalJSON() ([]byte, error) {
+	if utf8.ValidString(string(b)) {
+		return json.Marshal(string(b))
+	}
+	return json.Marshal(map[string]string{"hex": hex.EncodeToString([]byte(b))})
+}
+func (b *bstr) UnmarshalJSON(d []byte) error {
+	var s string
+	if json.Unmarshal(d, &s) == nil {
+		*b = bstr(s)
+		return nil
+	}
+	var m map[string]string
+	if err := json.Unmarshal(d, &m); err != nil {
+		return err
+	}
+	x, err := hex.DecodeString(m["hex"])
+	*b = bstr(x)
+	return err
+}
+
+type sPosting struct {
+	Source      bstr    `json:"source"`
+	Destination bstr    `json:"destination"`
+	Asset       bstr    `json:"asset"`
+	Amount      *string `json:"amount"` // decimal; nil = the JSON has no amount
+}
+
+type input struct {
+	Kind      string                       `json:"kind"` // script validate string reverse handler
+	Postings  []sPosting                   `json:"postings,omitempty"`
+	Unbounded bool                         `json:"unbounded,omitempty"`
+	Balances  map[string]map[string]string `json:"balances,omitempty"`
+	Metadata  map[string]string            `json:"metadata,omitempty"`
+	Reference string                       `json:"reference,omitempty"`
+	Timestamp string                       `json:"timestamp,omitempty"` // RFC3339
+	API       string                       `json:"api,omitempty"`       // v1 v2 bulk
+	Script    *string                      `json:"script,omitempty"`    // handler: script.plain of the request
+	Str       bstr                         `json:"str,omitempty"`
+	StrKind   string                       `json:"str_kind,omitempty"` // address asset
+	Note      string                       `json:"note,omitempty"`
+}
+
+func amountOf(p sPosting) *big.Int {
+	if p.Amount == nil {
+		return nil
+	}
+	b, ok := new(big.Int).SetString(*p.Amount, 10)
+	if !ok {
+		return nil
+	}
+	return b
+}
+
+func toPostings(ps []sPosting) ledger.Postings {
+	out := make(ledger.Postings, len(ps))
+	for i, p := range ps {
+		out[i] = ledger.Posting{Source: string(p.Source), Destination: string(p.Destination), Asset: string(p.Asset), Amount: amountOf(p)}
+	}
+	return out
+}
+
+func tsOf(in input) ledger.Time {
+	if in.Timestamp == "" {
+		return ledger.Time{}
+	}
+	t, err := time.Parse(time.RFC3339Nano, in.Timestamp)
+	if err != nil {
+		return ledger.Time{}
+	}
+	return ledger.Time{Time: t.UTC()}
+}
+
+func metaOf(in input) metadata.Metadata {
+	if in.Metadata == nil {
+		return nil
+	}
+	m := metadata.Metadata{}
+	for k, v := range in.Metadata {
+		m[k] = v
+	}
+	return m
+}
+
+// independent statement of validity, used by the oracle only (the model has its own, compared case by case)
+func validPosting(p sPosting) bool {
+	a := amountOf(p)
+	return a != nil && a.Sign() >= 0 && ledger.ValidateAddress(string(p.Source)) && ledger.ValidateAddress(string(p.Destination)) &&
+		ledger.AssetIsValid(string(p.Asset))
+}
+func allValid(ps []sPosting) bool {
+	for _, p := range ps {
+		if !validPosting(p) {
+			return false
 		}
 	}
-	_ = ledger.WORLD
+	return true
+}
+
+// ---- Coq rendering -------------------------------------------------------------------------------------------
+
+var varRe = regexp.MustCompile(`^v([am])(0|[1-9][0-9]*)$`)
+
+// names: "world" -> 0; variable names va<i> -> 2i, vm<j> -> 2j+1 (Posting/Model.v va, vm)
+func newNames(n int) *nsx.Names {
+	ns := nsx.NewNames()
+	for i := 0; i < 2*n+4; i++ {
+		ns.Var[fmt.Sprintf("va%d", i)] = uint64(2 * i)
+		ns.Var[fmt.Sprintf("vm%d", i)] = uint64(2*i + 1)
+	}
+	return ns
+}
+
+func coqSPosting(p sPosting) string {
+	amt := "None"
+	if a := amountOf(p); a != nil {
+		amt = "(Some " + nsx.Z(a) + ")"
+	}
+	return fmt.Sprintf("{| sp_src := %s; sp_dst := %s; sp_asset := %s; sp_amount := %s |}",
+		vx.CoqString(string(p.Source)), vx.CoqString(string(p.Destination)), vx.CoqString(string(p.Asset)), amt)
+}
+func coqSPostings(ps []sPosting) string {
+	var xs []string
+	for _, p := range ps {
+		xs = append(xs, coqSPosting(p))
+	}
+	return vx.CoqList(xs)
+}
+func coqPosting(n *nsx.Names, src, dst, asset string, amt *big.Int) string {
+	return fmt.Sprintf("{| p_src := %s; p_dst := %s; p_asset := %s; p_amount := %s |}", n.A(src), n.A(dst), n.S(asset), nsx.Z(amt))
+}
+func coqPostings(n *nsx.Names, ps ledger.Postings) string {
+	var xs []string
+	for _, p := range ps {
+		xs = append(xs, coqPosting(n, p.Source, p.Destination, p.Asset, p.Amount))
+	}
+	return vx.CoqList(xs)
+}
+
+// ---- the real pipeline on the produced script (as obs-numscript) -------------------------------------------
+
+type runObs struct {
+	Stage    string // compile vars resolve balances run done
+	Class    string
+	Panic    string
+	Postings []vm.Posting
+	TxMeta   map[string]machine.Value
+	AccMeta  map[machine.AccountAddress]map[string]machine.Value
+	Printed  []machine.Value
+	Vars     map[string]machine.Value
+	Prog     *program.Program
+	ResMeta  metadata.Metadata // vm.Run's Result.Metadata
+}
+
+func classify(stage string, err error) string {
+	switch stage {
+	case "vars":
+		return "EInvalidVars"
+	case "resolve":
+		if errors.Is(err, &machine.ErrMissingMetadata{}) {
+			return "EMissingMeta"
+		}
+		return "EResolveOther"
+	case "balances":
+		if errors.Is(err, &machine.ErrNegativeAmount{}) {
+			return "ENegBalance"
+		}
+		return "EResolveOther"
+	}
+	switch {
+	case errors.Is(err, &machine.ErrInsufficientFund{}):
+		return "EInsufficient"
+	case errors.Is(err, &machine.ErrInvalidScript{}):
+		return "EInvalidScript"
+	case errors.Is(err, machine.ErrScriptFailed):
+		return "EScriptFailed"
+	case errors.Is(err, machine.ErrResourceNotFound):
+		return "EResNotFound"
+	case errors.Is(err, &machine.ErrMetadataOverride{}):
+		return "EMetaOverride"
+	}
+	return "EOtherRun"
+}
+
+func storeOf(bal map[string]map[string]string) vm.StaticStore {
+	st := vm.StaticStore{}
+	for a, m := range bal {
+		for s, v := range m {
+			b, ok := new(big.Int).SetString(v, 10)
+			if !ok {
+				continue
+			}
+			if st[a] == nil {
+				st[a] = &vm.AccountWithBalances{Account: ledger.Account{Address: a, Metadata: metadata.Metadata{}}, Balances: map[string]*big.Int{}}
+			}
+			st[a].Balances[s] = b
+		}
+	}
+	return st
+}
+
+func runScript(rs ledger.RunScript, bal map[string]map[string]string) (ob runObs) {
+	stage := "compile"
+	defer func() {
+		if r := recover(); r != nil {
+			ob.Stage, ob.Panic = stage, fmt.Sprint(r)
+		}
+	}()
+	prog, err := compiler.Compile(rs.Script.Plain)
+	if err != nil {
+		ob.Stage, ob.Class = "compile", "ECompile"
+		return
+	}
+	ob.Prog = prog
+	stage = "vars"
+	m := vm.NewMachine(*prog)
+	done := make(chan struct{})
+	m.Printer = func(c chan machine.Value) {
+		for v := range c {
+			ob.Printed = append(ob.Printed, v)
+		}
+		close(done)
+	}
+	vars := map[string]string{}
+	for k, v := range rs.Script.Vars {
+		vars[k] = v
+	}
+	if err := m.SetVarsFromJSON(vars); err != nil {
+		ob.Stage, ob.Class = "vars", "EInvalidVars"
+		return
+	}
+	ob.Vars = m.Vars
+	st := storeOf(bal)
+	stage = "resolve"
+	if _, _, err := m.ResolveResources(context.Background(), st); err != nil {
+		ob.Stage, ob.Class = "resolve", classify("resolve", err)
+		return
+	}
+	stage = "balances"
+	if err := m.ResolveBalances(context.Background(), st); err != nil {
+		ob.Stage, ob.Class = "balances", classify("balances", err)
+		return
+	}
+	stage = "run"
+	res, err := vm.Run(m, rs)
+	<-done
+	if err != nil {
+		ob.Stage, ob.Class = "run", classify("run", err)
+		return
+	}
+	ob.Stage = "done"
+	ob.Postings, ob.TxMeta, ob.AccMeta, ob.ResMeta = m.Postings, m.TxMeta, m.AccountsMeta, res.Metadata
+	return
+}
+
+func coqRun(n *nsx.Names, ob runObs) string {
+	switch {
+	case ob.Panic != "":
+		return "OPanic"
+	case ob.Stage == "done":
+		var ps, tm, am, pr []string
+		for _, p := range ob.Postings {
+			ps = append(ps, coqPosting(n, p.Source, p.Destination, p.Asset, (*big.Int)(p.Amount)))
+		}
+		for _, k := range vx.SortedKeys(ob.TxMeta) {
+			tm = append(tm, "("+n.St(k)+", "+n.Value(ob.TxMeta[k])+")")
+		}
+		accs := map[string]map[string]machine.Value{}
+		for a, m := range ob.AccMeta {
+			accs[string(a)] = m
+		}
+		for _, a := range vx.SortedKeys(accs) {
+			for _, k := range vx.SortedKeys(accs[a]) {
+				am = append(am, "("+n.A(a)+", "+n.St(k)+", "+n.Value(accs[a][k])+")")
+			}
+		}
+		for _, v := range ob.Printed {
+			pr = append(pr, n.Value(v))
+		}
+		return fmt.Sprintf("(ODone {| res_posts := [%s]; res_txmeta := [%s]; res_accmeta := [%s]; res_printed := [%s] |})",
+			strings.Join(ps, "; "), strings.Join(tm, "; "), strings.Join(am, "; "), strings.Join(pr, "; "))
+	}
+	return "(OErr " + ob.Class + ")"
+}
+
+// ---- kind: script ----------------------------------------------------------------------------------------------
+
+// covered replays the request on the balance table: does every posting find its funds, earlier credits counting
+func covered(ps []sPosting, bal map[string]map[string]string, unb bool) bool {
+	cur := map[string]*big.Int{}
+	get := func(a, s string) *big.Int {
+		k := a + "\x00" + s
+		if v, ok := cur[k]; ok {
+			return v
+		}
+		b := big.NewInt(0)
+		if v, ok := bal[a][s]; ok {
+			if x, ok := new(big.Int).SetString(v, 10); ok {
+				b = x
+			}
+		}
+		cur[k] = b
+		return b
+	}
+	for _, p := range ps {
+		amt := amountOf(p)
+		src, dst, as := string(p.Source), string(p.Destination), string(p.Asset)
+		if src != "world" && !unb {
+			avail := get(src, as)
+			if avail.Sign() < 0 {
+				avail = big.NewInt(0)
+			}
+			if amt.Cmp(avail) > 0 {
+				return false
+			}
+		}
+		cur[src+"\x00"+as] = new(big.Int).Sub(get(src, as), amt)
+		cur[dst+"\x00"+as] = new(big.Int).Add(get(dst, as), amt)
+	}
+	return true
+}
+
+func samePosting(p vm.Posting, q sPosting) bool {
+	return p.Source == string(q.Source) && p.Destination == string(q.Destination) && p.Asset == string(q.Asset) &&
+		amountOf(q) != nil && (*big.Int)(p.Amount).Cmp(amountOf(q)) == 0
+}
+
+// how the committed postings differ from the request
+func diffClass(got []vm.Posting, want []sPosting) string {
+	if len(got) == len(want) {
+		same := true
+		for i := range got {
+			same = same && samePosting(got[i], want[i])
+		}
+		if same {
+			return ""
+		}
+		key := func(s, d, a string, z *big.Int) string { return s + "\x00" + d + "\x00" + a + "\x00" + z.String() }
+		var g, w []string
+		for _, p := range got {
+			g = append(g, key(p.Source, p.Destination, p.Asset, (*big.Int)(p.Amount)))
+		}
+		for _, p := range want {
+			w = append(w, key(string(p.Source), string(p.Destination), string(p.Asset), amountOf(p)))
+		}
+		sort.Strings(g)
+		sort.Strings(w)
+		if reflect.DeepEqual(g, w) {
+			return "reordered"
+		}
+		return "re-attributed-or-amount"
+	}
+	if len(got) < len(want) {
+		return "merged-or-dropped"
+	}
+	return "extra-postings"
+}
+
+func metaEqual(a, b metadata.Metadata) bool {
+	if len(a) != len(b) {
+		return false
+	}
+	for k, v := range a {
+		if w, ok := b[k]; !ok || w != v {
+			return false
+		}
+	}
+	return true
+}
+
+func doScript(r *vx.Run, in input) {
+	for _, p := range in.Postings {
+		if amountOf(p) == nil {
+			return // amounts are present in this kind (absent amounts: kinds validate and handler)
+		}
+	}
+	size := len(in.Postings)
+	txData := ledger.TransactionData{Postings: toPostings(in.Postings), Metadata: metaOf(in), Reference: in.Reference, Timestamp: tsOf(in)}
+	var rs ledger.RunScript
+	pan := ""
+	func() {
+		defer func() {
+			if x := recover(); x != nil {
+				pan = fmt.Sprint(x)
+			}
+		}()
+		rs = ledger.TxToScriptData(txData, in.Unbounded)
+	}()
+	if pan != "" {
+		r.FailP("C09", "txtoscript:panic", in, pan, size)
+		r.Case("", in, "", false)
+		return
+	}
+	// glue: metadata, reference, timestamp pass through
+	if rs.Reference != in.Reference || !rs.Timestamp.Equal(tsOf(in)) || !metaEqual(rs.Metadata, metaOf(in)) || rs.Metadata == nil {
+		r.FailP("C09", "txtoscript:metadata-reference-timestamp-not-passed-through", in, fmt.Sprintf("%+v", rs), size)
+	}
+	for i, p := range txData.Postings { // the caller's slice is not modified
+		if !samePostingL(p, in.Postings[i]) {
+			r.FailP("C09", "txtoscript:modifies-request", in, "", size)
+		}
+	}
+	ast := nsx.Parse(rs.Script.Plain)
+	if ast == nil && len(in.Postings) > 0 {
+		r.FailP("C09", "txtoscript:script-does-not-parse", in, rs.Script.Plain, size)
+	}
+	ob := runScript(rs, in.Balances)
+	valid := allValid(in.Postings)
+	r.Count("script:stage:" + ob.Stage)
+	if len(in.Postings) > 0 {
+		switch {
+		case ob.Panic != "":
+			r.FailP("C09", "run:panic:"+ob.Stage, in, ob.Panic, size)
+		case ob.Stage == "done":
+			if d := diffClass(ob.Postings, in.Postings); d != "" {
+				r.FailP("C09", "exact:"+d, in, fmt.Sprintf("committed %v for request %v", showPostings(ob.Postings), in.Postings), size)
+			}
+			if !metaEqual(ob.ResMeta, metaOf(in)) {
+				r.FailP("C09", "metadata:not-passed-through", in, fmt.Sprintf("%v vs %v", ob.ResMeta, in.Metadata), size)
+			}
+			if !valid {
+				r.FailP("C09", "validation:invalid-posting-committed", in, "", size)
+			} else if !covered(in.Postings, in.Balances, in.Unbounded) {
+				r.FailP("C09", "funds:uncovered-posting-committed", in, "", size)
+			}
+		default:
+			if valid && covered(in.Postings, in.Balances, in.Unbounded) {
+				r.FailP("C09", "rejection:valid-covered-request-rejected:"+ob.Stage+":"+ob.Class, in, "", size)
+			}
+		}
+	}
+	if ast == nil {
+		r.Case("", in, "", false)
+		return
+	}
+	n := newNames(len(in.Postings))
+	// intern the request first so that equal texts get equal numbers whatever the script mentions
+	ps := coqPostings(n, txData.Postings)
+	script := "(Some " + n.Script(ast) + ")"
+	vars := "None"
+	if ob.Vars != nil {
+		var xs []string
+		for _, k := range vx.SortedKeys(ob.Vars) {
+			xs = append(xs, "("+n.V(k)+", "+n.Value(ob.Vars[k])+")")
+		}
+		vars = "(Some " + vx.CoqList(xs) + ")"
+	}
+	var bal, extra []string
+	for _, a := range vx.SortedKeys(in.Balances) {
+		for _, s := range vx.SortedKeys(in.Balances[a]) {
+			if b, ok := new(big.Int).SetString(in.Balances[a][s], 10); ok {
+				bal = append(bal, fmt.Sprintf("(%s, %s, %s)", n.A(a), n.S(s), nsx.Z(b)))
+			}
+		}
+	}
+	for _, k := range vx.SortedKeys(in.Metadata) {
+		extra = append(extra, n.St(k))
+	}
+	prog := "None"
+	if ob.Prog != nil {
+		prog = "(Some " + n.Program(ob.Prog) + ")"
+	}
+	c := fmt.Sprintf("PCScript %s\n  %s %s\n  %s\n  %s\n  {| st_bal := %s; st_meta := []; st_parse := [] |} %s\n  %s\n  %s",
+		coqSPostings(in.Postings), ps, vx.CoqBool(in.Unbounded), script, vars, vx.CoqList(bal), vx.CoqList(extra), prog, coqRun(n, ob))
+	key, _ := json.Marshal(in)
+	r.Case(c, in, string(key), ob.Stage == "done" || ob.Class == "EInsufficient")
+}
+
+func samePostingL(p ledger.Posting, q sPosting) bool {
+	return p.Source == string(q.Source) && p.Destination == string(q.Destination) && p.Asset == string(q.Asset) &&
+		(p.Amount == nil) == (amountOf(q) == nil) && (p.Amount == nil || p.Amount.Cmp(amountOf(q)) == 0)
+}
+
+func showPostings(ps []vm.Posting) string {
+	var xs []string
+	for _, p := range ps {
+		xs = append(xs, fmt.Sprintf("%s->%s %s %s", p.Source, p.Destination, (*big.Int)(p.Amount), p.Asset))
+	}
+	return "[" + strings.Join(xs, ", ") + "]"
+}
+
+// ---- kind: validate / string -----------------------------------------------------------------------------------
+
+func doValidate(r *vx.Run, in input) {
+	ps := toPostings(in.Postings)
+	idx, bad, pan := -1, false, ""
+	func() {
+		defer func() {
+			if x := recover(); x != nil {
+				pan = fmt.Sprint(x)
+			}
+		}()
+		i, err := ps.Validate()
+		if err != nil {
+			idx, bad = i, true
+		}
+	}()
+	if pan != "" {
+		cause := "other"
+		for _, p := range in.Postings {
+			if p.Amount == nil {
+				cause = "absent-amount"
+			}
+		}
+		r.FailP("C09", "validate:panic:"+cause, in, pan, len(in.Postings))
+		r.Case("", in, "", false)
+		return
+	}
+	want := -1
+	for i, p := range in.Postings {
+		if !validPosting(p) {
+			want = i
+			break
+		}
+	}
+	if want != idx {
+		r.FailP("C09", "validate:first-invalid-index", in, fmt.Sprintf("Validate says %d (%v), postings say %d", idx, bad, want), len(in.Postings))
+	}
+	key, _ := json.Marshal(in)
+	r.Case(fmt.Sprintf("PCValidate %s %s", coqSPostings(in.Postings), vx.CoqOpt(vx.CoqNat(idx), bad)), in, string(key), bad)
+}
+
+func doString(r *vx.Run, in input) {
+	s := string(in.Str)
+	key, _ := json.Marshal(in)
+	if in.StrKind == "asset" {
+		ok := ledger.AssetIsValid(s)
+		if (machine.ValidateAsset(machine.Asset(s)) == nil) != ok {
+			r.FailP("C09", "validate:api-and-machine-disagree:asset", in, "", len(s))
+		}
+		r.Case(fmt.Sprintf("PCAsset %s %s", vx.CoqString(s), vx.CoqBool(ok)), in, string(key), ok)
+		return
+	}
+	ok := ledger.ValidateAddress(s)
+	if (machine.ValidateAccountAddress(machine.AccountAddress(s)) == nil) != ok {
+		r.FailP("C09", "validate:api-and-machine-disagree:address", in, "", len(s))
+	}
+	r.Case(fmt.Sprintf("PCAddress %s %s", vx.CoqString(s), vx.CoqBool(ok)), in, string(key), ok)
+}
+
+// ---- kind: reverse ---------------------------------------------------------------------------------------------
+
+func doReverse(r *vx.Run, in input) {
+	for _, p := range in.Postings {
+		if amountOf(p) == nil {
+			return
+		}
+	}
+	orig := toPostings(in.Postings)
+	td := ledger.TransactionData{Postings: orig, Metadata: metaOf(in), Reference: in.Reference, Timestamp: tsOf(in)}
+	rt := td.Reverse()
+	n := len(orig)
+	bad := len(rt.Postings) != n
+	for i := 0; !bad && i < n; i++ {
+		o, v := in.Postings[n-1-i], rt.Postings[i]
+		if v.Source != string(o.Destination) || v.Destination != string(o.Source) || v.Asset != string(o.Asset) || v.Amount.Cmp(amountOf(o)) != 0 {
+			bad = true
+		}
+	}
+	if bad {
+		r.FailP("C09", "reverse:not-swapped-reversed", in, fmt.Sprintf("%v", rt.Postings), n)
+		r.FailP("C10", "reverse:not-swapped-reversed", in, fmt.Sprintf("%v", rt.Postings), n)
+	}
+	for i, p := range orig {
+		if !samePostingL(p, in.Postings[i]) {
+			r.FailP("C09", "reverse:modifies-original", in, "", n)
+			r.FailP("C10", "reverse:modifies-original", in, "", n)
+			break
+		}
+	}
+	// the in-place form
+	cp := toPostings(in.Postings)
+	cp.Reverse()
+	if !reflect.DeepEqual(fmt.Sprint(cp), fmt.Sprint(rt.Postings)) {
+		r.FailP("C09", "reverse:in-place-and-copy-differ", in, "", n)
+	}
+	ns := newNames(0)
+	ps := coqPostings(ns, orig)
+	key, _ := json.Marshal(in)
+	r.Case(fmt.Sprintf("PCReverse %s %s", ps, coqPostings(ns, rt.Postings)), in, string(key), n > 1)
+}
+
+// ---- kind: handler ---------------------------------------------------------------------------------------------
+
+func requestBody(in input) []byte {
+	body := map[string]any{}
+	if in.Postings != nil {
+		var ps []map[string]any
+		for _, p := range in.Postings {
+			m := map[string]any{"source": string(p.Source), "destination": string(p.Destination), "asset": string(p.Asset)}
+			if a := amountOf(p); a != nil {
+				m["amount"] = json.RawMessage(a.String())
+			}
+			ps = append(ps, m)
+		}
+		body["postings"] = ps
+	}
+	if in.Script != nil {
+		body["script"] = map[string]any{"plain": *in.Script}
+	}
+	if in.Metadata != nil {
+		body["metadata"] = in.Metadata
+	}
+	if in.Reference != "" {
+		body["reference"] = in.Reference
+	}
+	if in.Timestamp != "" {
+		body["timestamp"] = in.Timestamp
+	}
+	b, _ := json.Marshal(body)
+	if in.API == "bulk" {
+		b, _ = json.Marshal([]map[string]any{{"action": "CREATE_TRANSACTION", "data": json.RawMessage(b)}})
+	}
+	return b
+}
+
+func doHandler(r *vx.Run, in input) {
+	for _, p := range in.Postings {
+		if !utf8.ValidString(string(p.Source)) || !utf8.ValidString(string(p.Destination)) || !utf8.ValidString(string(p.Asset)) {
+			return // JSON cannot carry it unchanged
+		}
+	}
+	l := &fakeapi.Ledger{}
+	var router http.Handler
+	url := "/l0/transactions"
+	switch in.API {
+	case "v1":
+		router = v1.NewRouter(&fakeapi.Backend{L: l}, &health.HealthController{}, metrics.NewNoOpRegistry(), auth.NewNoAuth())
+	case "bulk":
+		url = "/l0/_bulk"
+		fallthrough
+	default:
+		router = v2.NewRouter(&fakeapi.Backend{L: l}, &health.HealthController{}, metrics.NewNoOpRegistry(), auth.NewNoAuth())
+	}
+	req := httptest.NewRequest(http.MethodPost, url, bytes.NewReader(requestBody(in)))
+	rec := httptest.NewRecorder()
+	pan := ""
+	func() {
+		defer func() {
+			if x := recover(); x != nil {
+				pan = fmt.Sprint(x)
+			}
+		}()
+		router.ServeHTTP(rec, req)
+	}()
+	size := len(in.Postings)
+	hasScript := in.Script != nil && *in.Script != ""
+	cause := "valid"
+	if !allValid(in.Postings) {
+		cause = "invalid-posting"
+		for _, p := range in.Postings {
+			if p.Amount == nil {
+				cause = "absent-amount"
+			}
+		}
+	}
+	res := ""
+	switch {
+	case pan != "" || rec.Code >= 500:
+		r.FailP("C09", "handler:"+in.API+":crash:"+cause, in, fmt.Sprintf("status %d panic %q", rec.Code, pan), size)
+	case len(l.Writes) == 0 && rec.Code == 400:
+		res = "HReject"
+	case len(l.Writes) == 1 && l.Writes[0].Kind == "CREATE_TRANSACTION" && l.Writes[0].Script != nil:
+		got := *l.Writes[0].Script
+		if len(in.Postings) > 0 {
+			want := ledger.TxToScriptData(ledger.TransactionData{Postings: toPostings(in.Postings), Metadata: metaOf(in), Reference: in.Reference, Timestamp: tsOf(in)}, false)
+			if got.Plain == want.Plain && reflect.DeepEqual(got.Vars, want.Vars) && got.Reference == want.Reference &&
+				got.Timestamp.Equal(want.Timestamp) && metaEqual(got.Metadata, want.Metadata) {
+				res = "HPostings"
+			} else {
+				r.FailP("C09", "handler:"+in.API+":backend-receives-other-than-TxToScriptData-of-request", in, fmt.Sprintf("got %+v want %+v", got, want), size)
+			}
+		} else {
+			plain := ""
+			if in.Script != nil {
+				plain = *in.Script
+			}
+			if got.Plain == plain && got.Reference == in.Reference && got.Timestamp.Equal(tsOf(in)) && metaEqual(got.Metadata, metaOf(in)) {
+				res = "HScript"
+			} else {
+				r.FailP("C09", "handler:"+in.API+":script-request-altered", in, fmt.Sprintf("got %+v", got), size)
+			}
+		}
+	default:
+		r.FailP("C09", "handler:"+in.API+":unexpected-calls-or-status:"+cause, in, fmt.Sprintf("status %d writes %d", rec.Code, len(l.Writes)), size)
+	}
+	// oracle: an invalid posting never reaches the engine through v1
+	if in.API == "v1" && res == "HPostings" && !allValid(in.Postings) {
+		r.FailP("C09", "handler:v1:invalid-posting-reaches-backend", in, "", size)
+	}
+	r.Count("handler:" + in.API + ":" + res)
+	if res == "" {
+		r.Case("", in, "", false)
+		return
+	}
+	api := map[string]string{"v1": "ApiV1", "v2": "ApiV2", "bulk": "ApiBulk"}[in.API]
+	if api == "" {
+		api = "ApiV2"
+	}
+	key, _ := json.Marshal(in)
+	r.Case(fmt.Sprintf("PCHandler %s %s %s %s", api, coqSPostings(in.Postings), vx.CoqBool(hasScript), res), in, string(key), res == "HPostings")
+}
+
+// ---- generators --------------------------------------------------------------------------------------------------
+
+var goodAcc = []string{"world", "world", "a", "b", "c", "users:001", "users:002", "bank", "a-b:c_d", "A_1", "x:y:z", "0", "_", "orders:1234:payment-1", "world1", "worl"}
+var badAcc = []string{"", "a:", ":a", "a--b", "a b", "a:-b", "a-", "-a", "é", "a::b", "wor ld", "$x", "a\nb", "a.b", "@a", "a:b:", " world", "world "}
+var rawAcc = []string{"a\xffb", "\x00", "a\x80"}
+var goodAsset = []string{"USD", "USD", "EUR/2", "A", "ABCDEFGHIJKLMNOPQ", "X9/123456", "COIN", "USD/0", "B2"}
+var badAsset = []string{"usd", "USD/", "USD/1234567", "ABCDEFGHIJKLMNOPQR", "", "US D", "USD ", "1USD", "USD/2/3", "USD 1", " USD", "U$D", "USD/a", "É", "USD\n", "/2"}
+var amtPool = []string{"0", "0", "1", "2", "3", "5", "5", "5", "10", "10", "50", "100", "100", "999", "18446744073709551616", "18446744073709551617", "340282366920938463463374607431768211456", "1000000000000000000000000000000"}
+
+type gen struct{ r *vx.Rng }
+
+func (g *gen) pick(xs []string) string { return xs[g.r.Intn(len(xs))] }
+
+// postings: n entries over k accounts; badRate: 1 in badRate fields malformed (0 = none); raw: allow non-UTF-8
+func (g *gen) postings(n, k, badRate int, raw, allowNil bool) []sPosting {
+	accs := []string{"world"}
+	for len(accs) < k+1 {
+		if len(accs) < 8 {
+			a := g.pick(goodAcc)
+			accs = append(accs, a)
+		} else {
+			accs = append(accs, fmt.Sprintf("acc:%d", len(accs)))
+		}
+	}
+	assets := []string{g.pick(goodAsset)}
+	if g.r.Chance(1, 3) {
+		assets = append(assets, g.pick(goodAsset))
+	}
+	amts := []string{g.pick(amtPool), g.pick(amtPool), g.pick(amtPool)}
+	var ps []sPosting
+	last := ""
+	for i := 0; i < n; i++ {
+		var src, dst string
+		switch {
+		case last != "" && g.r.Chance(2, 5): // chain: spend what the previous posting delivered
+			src = last
+		case g.r.Chance(1, 4):
+			src = "world"
+		default:
+			src = accs[g.r.Intn(len(accs))]
+		}
+		switch {
+		case g.r.Chance(1, 12):
+			dst = src // self-transfer
+		case g.r.Chance(1, 10):
+			dst = "world"
+		default:
+			dst = accs[g.r.Intn(len(accs))]
+		}
+		if k > 8 && i < k { // many distinct accounts: numbering past va9
+			dst = accs[1+i%k]
+		}
+		amt := g.pick(amts)
+		if g.r.Chance(1, 4) {
+			amt = g.pick(amtPool)
+		}
+		p := sPosting{Source: bstr(src), Destination: bstr(dst), Asset: bstr(g.pick(assets)), Amount: &amt}
+		if badRate > 0 {
+			if g.r.Intn(badRate) == 0 {
+				p.Source = bstr(g.pick(badAcc))
+			}
+			if g.r.Intn(badRate) == 0 {
+				p.Destination = bstr(g.pick(badAcc))
+			}
+			if g.r.Intn(badRate) == 0 {
+				p.Asset = bstr(g.pick(badAsset))
+			}
+			if g.r.Intn(badRate) == 0 {
+				neg := "-" + g.pick(amtPool[2:])
+				p.Amount = &neg
+			}
+			if raw && g.r.Intn(badRate*2) == 0 {
+				p.Destination = bstr(g.pick(rawAcc))
+			}
+			if allowNil && g.r.Intn(badRate) == 0 {
+				p.Amount = nil
+			}
+		}
+		last = string(p.Destination)
+		ps = append(ps, p)
+	}
+	return ps
+}
+
+// a balance table that makes the outcome interesting: per (source, asset) exactly enough, one short, plenty, nothing, negative
+func (g *gen) balances(ps []sPosting) map[string]map[string]string {
+	need := map[string]map[string]*big.Int{}
+	for _, p := range ps {
+		a := amountOf(p)
+		if a == nil || string(p.Source) == "world" {
+			continue
+		}
+		if need[string(p.Source)] == nil {
+			need[string(p.Source)] = map[string]*big.Int{}
+		}
+		cur := need[string(p.Source)][string(p.Asset)]
+		if cur == nil {
+			cur = big.NewInt(0)
+		}
+		need[string(p.Source)][string(p.Asset)] = new(big.Int).Add(cur, new(big.Int).Abs(a))
+	}
+	out := map[string]map[string]string{}
+	set := func(a, s, v string) {
+		if out[a] == nil {
+			out[a] = map[string]string{}
+		}
+		out[a][s] = v
+	}
+	mode := g.r.Intn(4) // 0: all plenty, 1: mixed, 2: mixed, 3: all exact
+	for _, a := range vx.SortedKeys(need) {
+		for _, s := range vx.SortedKeys(need[a]) {
+			tot := need[a][s]
+			c := g.r.Intn(8)
+			if mode == 0 {
+				c = 0
+			} else if mode == 3 {
+				c = 1
+			}
+			switch c {
+			case 0:
+				set(a, s, new(big.Int).Add(tot, big.NewInt(int64(g.r.Intn(100)))).String())
+			case 1, 2:
+				set(a, s, tot.String())
+			case 3:
+				set(a, s, new(big.Int).Sub(tot, big.NewInt(1)).String())
+			case 4: // absent
+			case 5:
+				set(a, s, "-"+g.pick(amtPool[2:10]))
+			case 6:
+				set(a, s, g.pick(amtPool))
+			case 7:
+				set(a, s, "0")
+			}
+		}
+	}
+	if g.r.Chance(1, 5) {
+		set("world", "USD", g.pick([]string{"-1000", "7", "0"}))
+	}
+	if g.r.Chance(1, 6) {
+		set("bystander", "USD", "42")
+	}
+	return out
+}
+
+func (g *gen) envelope(in *input) {
+	if g.r.Chance(1, 2) {
+		in.Metadata = map[string]string{}
+		for i := g.r.Intn(3); i > 0; i-- {
+			in.Metadata[g.pick([]string{"k", "order", "note", "a b"})] = g.pick([]string{"v", "", "42", "x y"})
+		}
+	}
+	if g.r.Chance(1, 2) {
+		in.Reference = g.pick([]string{"ref-1", "r", "order:42"})
+	}
+	if g.r.Chance(1, 2) {
+		in.Timestamp = g.pick([]string{"2023-01-02T03:04:05Z", "2021-12-31T23:59:59.123456Z", "2024-02-29T12:00:00+02:00"})
+	}
+}
+
+func (g *gen) scriptCase(i int) input {
+	n := 1 + g.r.Intn(6)
+	k := 1 + g.r.Intn(4)
+	bad := 0
+	switch {
+	case i%10 == 7: // long lists over many accounts: variable numbering past va9 / vm9
+		k = 9 + g.r.Intn(16)
+		n = k + g.r.Intn(6)
+	case i%10 == 3:
+		bad = 6
+	case i%10 == 5:
+		n = 1
+	}
+	in := input{Kind: "script", Postings: g.postings(n, k, bad, bad > 0, false), Unbounded: g.r.Chance(1, 4)}
+	if i%10 == 7 && g.r.Bool() { // many distinct amounts as well
+		for j := range in.Postings {
+			a := fmt.Sprint(j + 1)
+			in.Postings[j].Amount = &a
+		}
+	}
+	in.Balances = g.balances(in.Postings)
+	g.envelope(&in)
+	return in
+}
+
+func enumerate(alpha string, maxLen int, f func(string)) {
+	var rec func(prefix string)
+	rec = func(prefix string) {
+		f(prefix)
+		if len(prefix) == maxLen {
+			return
+		}
+		for i := 0; i < len(alpha); i++ {
+			rec(prefix + alpha[i:i+1])
+		}
+	}
+	rec("")
+}
+
+func one(r *vx.Run, in input) {
+	r.Count("kind:" + in.Kind)
+	switch in.Kind {
+	case "script":
+		doScript(r, in)
+	case "validate":
+		doValidate(r, in)
+	case "string":
+		doString(r, in)
+	case "reverse":
+		doReverse(r, in)
+	case "handler":
+		doHandler(r, in)
+	}
+}
+
+func main() {
+	// chi's Recoverer prints a stack trace per recovered panic to file descriptor 2; the outcome is observed through the status
+	if null, err := os.OpenFile(os.DevNull, os.O_WRONLY, 0); err == nil {
+		_ = syscall.Dup3(int(null.Fd()), 2, 0)
+	}
+	r := vx.Start("C09", "posting")
+	r.Cases("From FL Require Import Numscript.Corr Posting.Model.\nClose Scope Z_scope.\nOpen Scope nat_scope.\n", "pcase", 300)
+	r.Sum.Rule = "posting lists (1..30 postings over 1..25 accounts: repeated accounts and amounts, @world on either side, self-transfers, " +
+		"chains spending what an earlier posting delivered, zero and >64-bit amounts, every valid address/asset form and a malformed stream) x " +
+		"balance tables (exact, one short, absent, negative, plenty) x forced/unforced, through the real TxToScriptData, parser, compiler and " +
+		"machine; Postings.Validate / ValidateAddress / AssetIsValid on raw strings (short strings exhaustively); Postings.Reverse; the real v1, " +
+		"v2 and bulk create-transaction handlers with a recording backend; non-trivial = the run committed or ended with insufficient funds / " +
+		"the string is accepted / the backend was called with postings; distinct by the JSON of the input"
+	docs, replayOnly := r.Inputs()
+	for _, d := range docs {
+		var in input
+		if err := json.Unmarshal(d, &in); err == nil && in.Kind != "" {
+			one(r, in)
+		}
+	}
+	if replayOnly {
+		r.Finish()
+		return
+	}
+	nScript, nVal, nRev, nHandler, enumLen, nRand := 700, 300, 150, 450, 3, 400
+	if r.Thorough() {
+		nScript, nVal, nRev, nHandler, enumLen, nRand = 16000, 4000, 1500, 6000, 5, 6000
+	}
+	root := vx.NewRng(r.Seed)
+	for i := 0; i < nScript; i++ {
+		g := &gen{root.Fork()}
+		one(r, g.scriptCase(i))
+	}
+	for i := 0; i < nVal; i++ {
+		g := &gen{root.Fork()}
+		one(r, input{Kind: "validate", Postings: g.postings(1+g.r.Intn(5), 3, 5+g.r.Intn(12), true, true)})
+	}
+	for i := 0; i < nRev; i++ {
+		g := &gen{root.Fork()}
+		in := input{Kind: "reverse", Postings: g.postings(g.r.Intn(8), 4, 0, false, false)}
+		g.envelope(&in)
+		one(r, in)
+	}
+	for i := 0; i < nHandler; i++ {
+		g := &gen{root.Fork()}
+		in := input{Kind: "handler", API: []string{"v1", "v2", "bulk"}[i%3]}
+		if !g.r.Chance(1, 6) {
+			bad := 0
+			if g.r.Chance(1, 2) {
+				bad = 4 + g.r.Intn(10)
+			}
+			in.Postings = g.postings(1+g.r.Intn(4), 3, bad, false, true)
+		} else if g.r.Bool() {
+			in.Postings = []sPosting{}
+		}
+		if g.r.Chance(1, 4) {
+			s := g.pick([]string{"send [USD 1] (\n source = @world\n destination = @a\n)", "", "vars { account $a }\nsend [USD 1] (source=@world destination=$a)"})
+			in.Script = &s
+		}
+		g.envelope(&in)
+		one(r, in)
+	}
+	// addresses and assets: every short string over the characters that matter, boundary lengths, random long ones
+	enumerate("aZ0_-: ", enumLen, func(s string) { one(r, input{Kind: "string", StrKind: "address", Str: bstr(s)}) })
+	enumerate("AZ09/a ", enumLen, func(s string) { one(r, input{Kind: "string", StrKind: "asset", Str: bstr(s)}) })
+	for body := 0; body <= 19; body++ {
+		for digits := -1; digits <= 8; digits++ {
+			s := "A" + strings.Repeat("B9", body)[:body]
+			if digits >= 0 {
+				s += "/" + strings.Repeat("0123456789", 1)[:digits]
+			}
+			one(r, input{Kind: "string", StrKind: "asset", Str: bstr(s)})
+		}
+	}
+	for _, s := range append(append(append([]string{}, goodAcc...), badAcc...), rawAcc...) {
+		one(r, input{Kind: "string", StrKind: "address", Str: bstr(s)})
+	}
+	for _, s := range append(append([]string{}, goodAsset...), badAsset...) {
+		one(r, input{Kind: "string", StrKind: "asset", Str: bstr(s)})
+	}
+	g := &gen{root.Fork()}
+	for i := 0; i < nRand; i++ {
+		n := 1 + g.r.Intn(40)
+		var b []byte
+		kind := []string{"address", "asset"}[i%2]
+		alpha := "abzAZ059__--::"
+		if kind == "asset" {
+			alpha = "ABZ0199///"
+		}
+		for j := 0; j < n; j++ {
+			if g.r.Chance(1, 30) {
+				b = append(b, byte(g.r.Intn(256)))
+			} else {
+				b = append(b, alpha[g.r.Intn(len(alpha))])
+			}
+		}
+		one(r, input{Kind: "string", StrKind: kind, Str: bstr(b)})
+	}
+	r.Finish()
 }
